@@ -4,21 +4,23 @@ The real `TimeoutWatchdog.watch()` coroutine is driven BY HAND (`coro.send`): `a
 `mitmproxy.proxy.server`'s namespace are replaced, for the duration of one path, by harness objects
 (`sleep` -> an awaitable that hands ("sleep", d) to the harness, `Event` -> an event whose waiter is
 resumed by the harness, `time.time` -> the harness clock).  Clock values, the timeout T and every clock
-advance are *symbolic ints* (milliseconds; the code only adds, subtracts and compares them), so one
-path covers every timing that takes the same branches.  The script (which step comes next) is a
+instant are *symbolic ints* (milliseconds; the code only adds, subtracts and compares them — they are z3
+Int-sort terms, `vf.symlin`, decided by linear arithmetic), so one path covers every timing that takes
+the same branches.  The script (which step comes next) is a
 solver-enumerated selector.  Steps: advance the clock, activity (`register_activity`, what
 `server_event` does), hook-enter (`disarm().__enter__`, what `handle_hook` does — preceded by an
 activity step or not: both occur in server.py), hook-exit, resume the watchdog task.
 
 Monitor (written from the property sentence, independent of the watchdog's fields):
   safety    callback fired  =>  no hook pending at that instant  AND  now - max(last activity, last
-            hook exit) > T
+            hook exit) >= T   (weaker reading at the boundary idle == T)
   liveness  after the script every pending hook completes, the clock moves to an instant later than
             max(last activity, last hook exit) + T and the watchdog task is resumed (at its deadline or
             later): the callback must fire.
 """
 import asyncio as _real_asyncio
 
+from vf import symlin
 from vf.ob import Symx
 
 LEVEL = "model_checking"
@@ -39,7 +41,7 @@ ENCODED = ["mitmproxy.proxy.server:TimeoutWatchdog.__init__", "mitmproxy.proxy.s
 STUBS = ["mitmproxy.proxy.server.asyncio -> harness shim (sleep, Event, CancelledError)", "mitmproxy.proxy.server.time -> harness clock"]
 
 TMAX = 10 ** 6  # ms
-DMAX = 10 ** 6
+CLOCK_MAX = 10 ** 7  # ms; every instant of the script is a symbolic value in [0, CLOCK_MAX]
 NEST = 3
 
 
@@ -57,7 +59,7 @@ class _Env:
 
     def __init__(self, X):
         self.X = X
-        self.now = X.int("t0", 0, 1000)
+        self.now = symlin.declare(X, "t", 0, CLOCK_MAX)
         env = self
 
         class Event:
@@ -126,7 +128,7 @@ def _run(X, K, disciplined):
     from mitmproxy.proxy import server
 
     env = _Env(X)
-    T = X.int("T", 1, TMAX)
+    T = symlin.declare(X, "T", 1, TMAX)
     saved = (server.asyncio, server.time)
     server.asyncio, server.time = env.asyncio_shim, env.time_shim
     try:
@@ -148,7 +150,9 @@ def _run(X, K, disciplined):
                     f"timeout callback fired while {env.fired_pending} hook(s) pending ({where}); the last hook started "
                     f"{'with' if ref.get('enter_with_activity') else 'without'} a register_activity at the same instant")
             idle = env.fired_at - ref["last"]
-            X.check(idle > T, "C10/watch/fired-early", f"timeout callback fired after an idle time <= timeout ({where})")
+            # boundary: the sentence does not say whether idle == T already counts as "no activity for the timeout";
+            # weaker reading: firing at idle == T is allowed (the code itself only fires at idle > T)
+            X.check(idle >= T, "C10/watch/fired-early", f"timeout callback fired after an idle time < timeout ({where})")
 
         def activity():
             wd.register_activity()
@@ -176,14 +180,17 @@ def _run(X, K, disciplined):
             if s == "stop":
                 break
             if s == "advance":
-                d = X.int("delta", 1, DMAX)
+                # a later instant: a fresh symbol ordered after the current one (keeps every clock value a plain
+                # symbol, so the solver sees difference constraints instead of ever-growing sums of deltas)
+                new = symlin.declare(X, "t", 0, CLOCK_MAX)
+                X.assume(new > env.now)
                 if disciplined:
                     # zero lateness: time may not pass a due timer / a resolved waiter without the task running
                     if env.state == "new" or (env.state == "wait" and env.event.resolved):
                         X.assume(False)
                     if env.state == "sleep":
-                        X.assume(env.now + d <= env.deadline)
-                env.now = env.now + d
+                        X.assume(new <= env.deadline)
+                env.now = new
                 last_was_activity = False
             elif s == "activity":
                 X.assume(not last_was_activity)  # two activities at one instant = one
@@ -229,8 +236,8 @@ def _run(X, K, disciplined):
         if env.state == "done":
             X.reach("fired-in-epilogue")
             return
-        extra = X.int("idle_extra", 1, DMAX)
-        target = ref["last"] + T + extra
+        target = symlin.declare(X, "t_idle", 0, CLOCK_MAX + TMAX + 1)
+        X.assume(target > ref["last"] + T)
         X.assume(target >= env.now)
         env.now = target
         for _ in range(4):
@@ -266,8 +273,8 @@ def obligations(tier):
     alpha = "{advance clock by symbolic delta, register_activity, hook-enter, hook-exit, resume watchdog task}"
     return [
         Symx("watchdog-schedule", lambda X: h_general(X, k1),
-             bounds=f"every script of <= {k1} steps over {alpha}, <= {NEST} hooks pending at once; T in [1,{TMAX}] ms, start time and every delta "
-                    f"symbolic ints; watchdog resumed at its deadline or any later instant; liveness epilogue with symbolic idle time",
+             bounds=f"every script of <= {k1} steps over {alpha}, <= {NEST} hooks pending at once; T in [1,{TMAX}] ms, every instant a symbolic int in [0,{CLOCK_MAX}] ms "
+                    f"(strictly increasing); watchdog resumed at its deadline or any later instant; liveness epilogue with symbolic idle time",
              encoded=ENCODED, stubs=STUBS, parallel_depth=3,
              must_reach=["fired", "hook-enter", "hook-exit", "overlapping-hooks", "woke-from-sleep", "blocked-on-hook", "fired-in-epilogue"]),
         Symx("watchdog-schedule-disciplined", lambda X: h_disciplined(X, k2),
